@@ -111,3 +111,9 @@ add("C05", "exploration", "bounded-exhaustive enumeration of (model x trainable 
     "stimulus amplitudes and data_set values) crossed with schemes, backends and checkpoint layouts (quick: each kind once + full cross for four representative kinds; thorough: full product).",
     "5-step runs, quadratic losses; finite differences at two step sizes must agree to 1e-6 or the configuration is reported inconclusive.",
     "DESIGN.md §7 C05")
+
+add("C15", "exploration", "exhaustive enumeration of a cable geometry/parameter alphabet x refinement ladders (ncomp 4..64, dt 0.5..1/32) x backends x schemes, observed convergence orders against closed-form cable theory",
+    "16 sealed cables x 5-rung spatial ladders on every backend against the steady-state Green's function at every compartment centre, 5-rung temporal ladders for RC relaxation "
+    "with all three schemes, and steady state under constant current against I/(gA) for the unit constants.",
+    "A finite ladder is evidence of the limit only; order windows +-0.3 (space) / +-0.1 (time) on the last two rungs and an absolute accuracy bound at the finest rung.",
+    "DESIGN.md §7 C15")
